@@ -73,6 +73,12 @@ impl AnalyzedSource {
     }
 
     pub fn update(self, changes: Vec<TextChange>) -> Self {
+        if changes.is_empty() {
+            // Without a change, no node is re-parsed,
+            // so the old build and semantic errors are still in place.
+            // Running the analysis again would add them a second time.
+            return self;
+        }
         let mut analysed_source = changes.into_iter().fold(self, |mut acc, change| {
             acc.text.replace_range(change.to_range(), &change.text);
             let (new_tokens, token_change) = lexer::update(&acc.text, acc.tokens, &change);
